@@ -5,6 +5,7 @@ CONSTANTS
   Algo = "asis"
   SeedCopyreg = "live"
   InitGuard = FALSE
+  KwOnlyOK = FALSE
   SharedCtx = FALSE
   CtxCopy = TRUE
   Scns = {}
